@@ -33,6 +33,9 @@ def make_twin(mod, fn):
     import os
     import tempfile
     d = tempfile.mkdtemp(prefix='chtwin_')
+    import atexit
+    import shutil
+    atexit.register(shutil.rmtree, d, True)
     path = os.path.join(d, 'twin_%s_%s.py' % (mod.__name__, fn.__name__))
     with open(path, 'w') as f:
         f.write('from %s import *\nfrom %s import %s\nfrom typing import *\n' % (mod.__name__, mod.__name__, fn.__name__))
